@@ -472,6 +472,15 @@ impl Sender {
     }
 }
 
+#[cfg(feature = "verif")]
+impl Sender {
+    /// Verification hook: flow credits currently available to this sender.
+    #[doc(hidden)]
+    pub fn verif_credits(&self) -> Option<u32> {
+        self.credits.verif_available()
+    }
+}
+
 impl Drop for Sender {
     fn drop(&mut self) {
         // required for correct drop order
